@@ -465,8 +465,8 @@ func RuleF4(r *Report, p *Program) {
 		}
 		w := NewWalker(p)
 		w.LoopFuel = 8 // a table lookup may be a (binary) search loop; the field loop is cut by the assumption below
-		w.Inline = inlineHelpers([]*ssa.Package{pkgOf(fn)}, func(f *ssa.Function) bool {
-			return f == fn || (f.Object() != nil && f.Object().Exported())
+		w.Inline = inlineHelpers([]*ssa.Package{pkgOf(fn), p.SSAPkg(codecRel)}, func(f *ssa.Function) bool {
+			return f == fn || (f.Object() != nil && f.Object().Exported() && !publicHelper(f, fn))
 		})
 		args := make([]*Term, len(fn.Params))
 		buf := ""
